@@ -4,11 +4,11 @@ CONSTANTS
   Root = "r"
   MaxDepth = 8
   FileSeq <- Seq3
-  MaxStmts = 2
+  MaxStmts = 3
   GenKinds = {"use", "forward", "import", "loadcss"}
-  GenSpellings = {"plain", "dot", "dd"}
+  GenSpellings = {"plain"}
   DevChoices <- DevIdeal
-  MaxFaultAt = 0
-INVARIANTS LockDiscipline DepthBound LoopOnlyOnCycle NeverOverflow InitOnce OkOnlyAcyclic Emit
+  MaxFaultAt = 9
+INVARIANTS FaultReported NoErrWithoutFault LockDiscipline DepthBound LoopOnlyOnCycle NeverOverflow InitOnce OkOnlyAcyclic Emit
 PROPERTY Termination
 CHECK_DEADLOCK FALSE
